@@ -673,7 +673,11 @@ J_iv_parse(e) ==
       pa == IF e.a.kind = "duration/end" THEN Invalid ELSE Recognise(e.a.t1)
       pb == IF e.a.kind = "start/duration" THEN Invalid ELSE Recognise(e.a.t2)
       du == IF e.a.kind = "start/end" THEN Invalid ELSE RecDuration(IF e.a.kind = "start/duration" THEN e.a.t2 ELSE e.a.t1)
-      AsDT(v) == DT((IF v.hasoff THEN FixedRef(v.off) ELSE UtcRef), <<v.d[1], v.d[2], v.d[3], v.t[1], v.t[2], v.t[3], v.t[4]>>, 0)
+      \* an end-point without an offset is a wall time of the zone given by the tz option (default UTC), built by the
+      \* construction rules; the missing end-point is computed in that zone, on the wall clock
+      ZoneOpt == IF "tz" \in DOMAIN e.a THEN e.a.tz ELSE UtcRef
+      AsDT(v) == IF v.hasoff THEN DT(FixedRef(v.off), <<v.d[1], v.d[2], v.d[3], v.t[1], v.t[2], v.t[3], v.t[4]>>, 0)
+                 ELSE Construct(ZoneOpt, <<v.d[1], v.d[2], v.d[3], v.t[1], v.t[2], v.t[3], v.t[4]>>, 1)
       okForms == (e.a.kind = "start/end" => pa.ok /\ pb.ok /\ pa.kind = "datetime" /\ pb.kind = "datetime")
                  /\ (e.a.kind = "start/duration" => pa.ok /\ pa.kind = "datetime" /\ du.ok /\ ~du.big /\ ~du.tie)
                  /\ (e.a.kind = "duration/end" => pb.ok /\ pb.kind = "datetime" /\ du.ok /\ ~du.big /\ ~du.tie)
@@ -681,7 +685,11 @@ J_iv_parse(e) ==
      ELSE LET c == IF e.a.kind = "start/end" THEN [y |-> 0] ELSE CompOfRest(BNToInt(du.y), BNToInt(du.mo), du.rest)
               st == IF e.a.kind = "duration/end" THEN Add(AsDT(pb), NegC(c)) ELSE AsDT(pa)
               en == IF e.a.kind = "start/duration" THEN Add(AsDT(pa), c) ELSE AsDT(pb)
-          IN R(<<e.a.kind, "ok">>,
+              given == IF e.a.kind = "duration/end" THEN {en} ELSE IF e.a.kind = "start/duration" THEN {st} ELSE {st, en}
+          IN IF \E g \in given : ClassOf(g) = "repeated"
+             THEN R(<<e.a.kind, "ambiguous-given-endpoint">>, <<>>)     \* which occurrence a written wall time means is not stated
+             ELSE
+             R(<<e.a.kind, "ok", (IF "tz" \in DOMAIN e.a THEN "tz" ELSE "no-tz"), ClassOf(st), ClassOf(en)>>,
                IF p.k = "exc" THEN << <<"rejects-valid", p.names>> >>
                ELSE IF p.k # "iv" THEN << <<"kind", p.k>> >>
                ELSE V("class", p.cls = "Interval", "Interval")
